@@ -393,6 +393,20 @@ impl<'a> R<'a> {
                 } else {
                     "'re"
                 };
+                // now and then a comment sits between the word and its suffix (`Tommy (the hero)'s 5`): the suffix hangs on
+                // the comment (decided by a hash of the spelling tape and the position: consumes no choice)
+                let s = if self.o.comments && (self.sp.content_hash() ^ self.out.len() as u64) % 5 == 0 {
+                    self.push_raw(if self.out.len() % 2 == 0 { " (the hero)" } else { "(c)" });
+                    self.st.comment = true;
+                    // (only a suffix glued to a word may be spelled in upper case)
+                    if c == 6 {
+                        "'s"
+                    } else {
+                        "'re"
+                    }
+                } else {
+                    s
+                };
                 self.push_raw(s);
                 self.st.aliases.insert(if c == 6 { "'s" } else { "'re" });
                 self.st.glued_suffix = true;
